@@ -50,13 +50,23 @@ CONSTANTS Size,        \* size of the weighted semaphore (maxCapacity)
           MaxRestart,  \* number of restarting reloads (a new listener replaces the old one)
           Ordered      \* FALSE: the pinned code.  TRUE: tuners run in request order (repair)
 
-ASSUME /\ \A c \in Caps \cup InitCaps : c >= 0 /\ c <= Size
+(* Caps may contain values at and ABOVE Size: maxConnections is a uint32, maxCapacity is 20 000 000. *)
+(* SetMaxCount clamps: the effective cap of a request n is Clamp(n) = min(n, Size), in the          *)
+(* bookkeeping (realCapacity) as well as in the token transfer - the next call computes its          *)
+(* adjustment from the clamped value.  The boundary configurations use Caps = small values \cup     *)
+(* {Size-1, Size, Size+1, far above} with Size - 1 - (largest small value) > MaxDial + 1, so that     *)
+(* every comparison the weighted semaphore makes comes out as with the real maxCapacity.             *)
+ASSUME /\ \A c \in Caps : c >= 0
+       /\ \A c \in InitCaps : c >= 0 /\ c <= Size
+
+Clamp(n) == IF n > Size THEN Size ELSE n
 
 VARIABLES cur, waiters,        \* Weighted: tokens taken; FIFO of [n |-> weight, who |-> 0 (acceptor) | i (tuner i)]
           realCap,             \* Semaphore.realCapacity
           initCap,
           req,                 \* caps requested so far (req[i] = argument of the i-th SetMaxCount)
-          tst,                 \* tuner i: "none" | "spawned" | "waiting" | "adjusted" | "done"
+          tst,                 \* tuner i: "none" | "spawned" | "waiting" | "adjusted" | "done" | "doomed" (x/sync: an
+                               \* Acquire of more than Size is not even queued, it waits for its context to end)
           td,                  \* tuner i: n - old, computed in the synchronous part
           acc,                 \* acceptor: "idle" | "waiting" | "have" | "stopped"
           lclosed,             \* LimitListener.Close was called
@@ -80,8 +90,14 @@ Tuners == 1..MaxResize
 xv == <<c2, cr, dbl, restarts>>     \* overlapping-close / restart state, untouched by most actions
 
 (* ---------------- contract, under the refinement mapping ---------------- *)
+(* the effective cap of a request is Clamp(requested); a change is stalled when it is not applied    *)
+(* although nothing is open, nobody holds a slot and every background adjustment has run as far as  *)
+(* it can (Wedged)                                                                                  *)
+Quiet == open = 0 /\ c2 = 0 /\ acc # "have" /\ \A i \in 1..MaxResize : tst[i] \notin {"spawned", "adjusted"}
+Wedged == Quiet /\ \E i \in 1..MaxResize : tst[i] \in {"waiting", "doomed"}
 C == INSTANCE ConnCapContract WITH applied <- {i \in 1..Len(req) : tst[i] = "done"},
-                                   dropped <- 0, starved <- FALSE
+                                   req <- [i \in 1..Len(req) |-> Clamp(req[i])],
+                                   dropped <- 0, starved <- FALSE, stalled <- Wedged
 
 (* ---------------- x/sync/semaphore ---------------- *)
 CanTake(n) == Size - cur >= n /\ waiters = <<>>
@@ -232,16 +248,19 @@ AccAbort ==
 (* The step record says what kind of call it is (d = n - old; `usage` = slots held by open         *)
 (* connections and by the acceptor; `pend` = earlier calls not completed yet) so that the          *)
 (* generators can cover every kind of call behind every kind of pending call.                      *)
+(* A value above maxCapacity is clamped first (`c`): realCapacity and the adjustment are computed    *)
+(* from the clamped value, so the call after it starts from what the semaphore really has.           *)
 SetMax(n) ==
     /\ Len(req) < MaxResize
-    /\ LET i == Len(req) + 1 IN
+    /\ LET i == Len(req) + 1
+           c == Clamp(n) IN
          /\ req' = Append(req, n)
-         /\ td' = [td EXCEPT ![i] = n - realCap]
+         /\ td' = [td EXCEPT ![i] = c - realCap]
          /\ tst' = [tst EXCEPT ![i] = "spawned"]
-         /\ last' = [a |-> "setmax", i |-> i, n |-> n, d |-> n - realCap,
+         /\ last' = [a |-> "setmax", i |-> i, n |-> n, c |-> c, d |-> c - realCap,
                      usage |-> open + (IF acc = "have" THEN 1 ELSE 0),
                      pend |-> Cardinality({j \in 1..Len(req) : tst[j] # "done"})]
-    /\ realCap' = n
+         /\ realCap' = c
     /\ UNCHANGED <<cur, waiters, initCap, acc, lclosed, backlog, open, eof, dialed, errs, xv>>
 
 (* the goroutine: Release(n-old) / Acquire(old-n) on the Weighted *)
@@ -253,6 +272,11 @@ TunerRun(i) ==
           /\ cur' = r.cur /\ waiters' = r.w /\ acc' = AccAfter(r)
           /\ tst' = [TstAfter(r, tst) EXCEPT ![i] = "adjusted"]
           /\ last' = [a |-> "tuner", i |-> i, d |-> td[i], blocks |-> FALSE]
+       ELSE IF -td[i] > Size THEN
+          \* x/sync: "don't make other Acquire calls block on one that's doomed to fail": not queued, never returns
+          /\ tst' = [tst EXCEPT ![i] = "doomed"]
+          /\ last' = [a |-> "tuner", i |-> i, d |-> td[i], blocks |-> TRUE]
+          /\ UNCHANGED <<cur, waiters, acc>>
        ELSE IF td[i] = 0 \/ CanTake(-td[i]) THEN
           /\ cur' = cur - td[i] /\ tst' = [tst EXCEPT ![i] = "adjusted"]
           /\ last' = [a |-> "tuner", i |-> i, d |-> td[i], blocks |-> FALSE]
@@ -299,7 +323,7 @@ TypeOK ==
     /\ cur \in 0..Size /\ realCap \in 0..Size /\ open \in 0..MaxDial /\ backlog \in 0..MaxDial /\ eof \in 0..open
     /\ c2 \in 0..MaxDbl /\ cr \in 0..MaxDbl /\ dbl \in 0..MaxDbl /\ restarts \in 0..MaxRestart
     /\ acc \in {"idle", "waiting", "have", "stopped"}
-    /\ \A i \in Tuners : tst[i] \in {"none", "spawned", "waiting", "adjusted", "done"}
+    /\ \A i \in Tuners : tst[i] \in {"none", "spawned", "waiting", "adjusted", "done", "doomed"}
     /\ (acc = "waiting") = (\E k \in 1..Len(waiters) : waiters[k].who = 0)
     /\ \A i \in Tuners : (tst[i] = "waiting") = (\E k \in 1..Len(waiters) : waiters[k].who = i)
 
@@ -316,7 +340,13 @@ NoAcceptAboveCap == C!NoAcceptAboveCap
 CapHoldsWhileUnchanged == C!CapHoldsWhileUnchanged
 NeverAboveEveryCap == C!NeverAboveEveryCap
 NoDrop == [][open' < open => last'.a \in {"close", "close2"}]_vars       \* only a client's / handler's close ends a connection
-RefinesContract == C!CSpec(Caps \cup InitCaps)
+RefinesContract == C!CSpec({Clamp(c) : c \in Caps \cup InitCaps})
+(* every change is applied: no background adjustment asks the semaphore for more than it has in     *)
+(* total, and with nothing open and nobody running no adjustment is left waiting - whatever values,  *)
+(* also at and above maxCapacity, were requested in whatever order                                    *)
+ChangesApplied == C!ChangesApplied
+NoDoomedResize == \A i \in Tuners : tst[i] # "doomed"
+EffectiveCapClamped == realCap <= Size
 
 (* implementation invariants: once every adjustment has completed the free tokens are exactly   *)
 (* the unused part of the configured cap (so nothing leaks and nothing is created) ...           *)
